@@ -164,6 +164,10 @@ fn field() -> BoxedStrategy<f64> {
     ]
     .boxed()
 }
+/// few distinct values, long runs: equal neighbours are the rule, not the exception
+fn tie_field() -> BoxedStrategy<f64> {
+    prop_oneof![3 => (0usize..3).prop_map(|i| [10.0, 10.5, 9.75][i]), 1 => Just(10.0)].boxed()
+}
 fn noise_field() -> BoxedStrategy<f64> {
     prop_oneof![
         4 => 1000.0f64..2000.0,
@@ -185,7 +189,14 @@ fn strategy(maxlen: usize) -> BoxedStrategy<Case> {
                 4 => vec(raw_bar(field), lenr.clone()),
                 3 => vec(valid_bar(), lenr.clone()),
                 1 => bar_stream(false, 1, (3 * n + 10).min(maxlen)).prop_map(|s| s.bars),
-                2 => vec(field(), lenr).prop_map(|v| v.into_iter().map(|x| RawBar { o: x, h: x, l: x, c: x, v: x.abs() }).collect()),
+                2 => vec(field(), lenr.clone()).prop_map(|v| v.into_iter().map(|x| RawBar { o: x, h: x, l: x, c: x, v: x.abs() }).collect()),
+                // documented field on a coarse grid (exact ties between neighbours, plateaus), other fields free
+                3 => vec((tie_field(), raw_bar(field)), lenr).prop_map(move |v| v.into_iter().map(|(x, mut b)| {
+                    b.c = x;
+                    b.l = x - 1.0;
+                    b.h = x + 2.0;
+                    b
+                }).collect()),
             ];
             (Just(cfg), bars, vec(raw_bar(noise_field), 1..=8))
         })
@@ -198,5 +209,21 @@ pub fn run(g: &mut Global) {
     let _ = minimal_trait_instantiation();
     g.rule = "random: proptest (kind among all 22, periods to 64, bars with five independently drawn finite fields, or consistent bars, or one-price bars) plus unrelated noise values. Oracle: (1) next(&bar) = next(bar.close) for the close-only indicators, next(bar.low) for MIN, next(bar.high) for MAX, within 1e-12 relative; (2) one-price bars = scalar path for FAST_STOCH, SLOW_STOCH, TRUE_RANGE, ATR, and KC within 16 ulp of the price scale; (3) replacing every field the indicator is not documented to read (open always; volume except MFI/OBV; high/low for close-only ones) by unrelated values incl. +-1e300 leaves every output bit-identical; (4) ta::DataItem and the harness's own implementor carrying the same numbers give bit-identical outputs and DataItem's getters return the numbers it was built from. Non-trivial = noise values differ from every field of every bar and the stream is longer than the window; distinct by hash of (kind, parameters, bars).".into();
     g.assumptions = vec!["documented fields per indicator are those listed in the property (close; low for MIN; high for MAX; high/low/close for the bar indicators; + volume for MFI, close+volume for OBV)".into()];
-    g.random("random", g.tier.pick(60000, 600000), &|| strategy(200), &check);
+    g.random("random", g.tier.pick(100000, 1000000), &|| strategy(200), &check);
+    // long flat runs after a short active prefix: the bar path and the scalar path must still agree
+    // when exponential averages decay to zero (periods 1..=3 get there within ~1100 bars)
+    g.exhaustive(
+        "flat_runs",
+        22 * 3 * 4,
+        &|i| {
+            let kind = ALL_KINDS[(i / 12) as usize];
+            let n = ((i / 4) % 3) as usize + 1;
+            let variant = (i % 4) as usize;
+            let level = [10.0, 0.1, 85.18, 1e6][variant];
+            let mut bars: Vec<RawBar> = (0..variant * 2).map(|j| RawBar { o: 3.0, h: level * 1.5 + j as f64, l: level * 0.5, c: level * (1.0 + 0.1 * j as f64), v: 7.0 }).collect();
+            bars.extend((0..1300).map(|_| RawBar { o: level * 0.9, h: level * 1.25, l: level * 0.5, c: level, v: 3.0 }));
+            Case { cfg: cfg_small(kind, n), bars, noise: vec![RawBar { o: 1234.5, h: -77.0, l: 5e5, c: 0.001, v: 1e300 }] }
+        },
+        &check,
+    );
 }
